@@ -188,6 +188,7 @@ def main():
     global MENU_T
     t = common.tier()
     chk = common.Check(PID, 'model_checking')
+    chk.unexercised_whats = {'command-failed'}   # a failing command is not what C07 is about: reported as 'could not exercise'
     H.materialize()
     MENU_T = MENU if t == 'thorough' else ['F1', 'F2', 'F3', 'F5']
     depth = 3 if t == 'quick' else 4
